@@ -286,7 +286,7 @@ fn array_candidates(prop: Prop, s: &Scenario, fail_op: usize) -> Vec<Scenario> {
         }
         for j in 0..op.aux.len() {
             for k in 0..op.aux[j].len() {
-                if op.aux[j].len() > 1 && !matches!(op.name.as_str(), "weighted_axis" | "law_relabel") {
+                if op.aux[j].len() > 1 && !matches!(op.name.as_str(), "weighted_axis" | "law_relabel" | "moments") {
                     let mut t = s.clone();
                     t.ops[i].aux[j].remove(k);
                     out.push(t);
